@@ -673,7 +673,19 @@ def cfgq_compare(item, mac, res):
             return "archetype %s: enabled parameters bound to %s, twin %s" % (g[0], g[1], w[1])
     return None
 
-def cfgq_e2e_src(item, mac, realise, twin):
+def cfgq_guard_lines(item):
+    """Exclusive runtime-borrow guards on every column the reduced twin does not touch: a decorated
+    query that behaves as if its disabled parameters had not been written cannot notice them."""
+    pool = {c for a in item["decl"] for c in a["cols"]}
+    touched = {m["name"]: {t[1] for t in m["types"] if t[1] in pool} for m in item["matched"]}
+    lines = []
+    for a in item["decl"]:
+        for c in a["cols"]:
+            if c not in touched.get(a["name"], set()):
+                lines.append("    let _g_%s_%s = world.%s.borrow_slice_mut::<%s>();" % (a["name"].lower(), c.lower(), a["name"].lower(), c))
+    return lines
+
+def cfgq_e2e_src(item, mac, realise, twin, guarded=False):
     decl = item["decl"]
     if twin:
         params, cfgs = item["params"], None
@@ -699,13 +711,17 @@ def cfgq_e2e_src(item, mac, realise, twin):
     src = [prelude(), "ecs_world! { %s }" % render_world_body(decl), "fn main() {"]
     if mac.startswith("find"):
         src.append("    let mut world = EcsWorld::new(); %s\n    let mut res: Vec<String> = Vec::new();" % populate(decl))
+        if guarded:
+            src += cfgq_guard_lines(item)
         for a in decl:
             src.append("    { let key = e_%s_1.into_any(); let mut out: Vec<String> = Vec::new(); let r = ecs_%s!(world, key, |%s| %s); res.push(format!(\"{}/{}\", r.is_some(), out.join(\";\"))); }"
                        % (a["name"], mac, render_params(params, cfgs), body))
         src.append("    println!(\"{}\", res.join(\"|\"));")
     else:
-        src.append("    let mut world = EcsWorld::new(); %s\n    let mut out: Vec<String> = Vec::new();\n    ecs_%s!(world, |%s| %s);\n    println!(\"{}\", out.join(\";\"));"
-                   % (populate(decl), mac, render_params(params, cfgs), body))
+        src.append("    let mut world = EcsWorld::new(); %s\n    let mut out: Vec<String> = Vec::new();" % populate(decl))
+        if guarded:
+            src += cfgq_guard_lines(item)
+        src.append("    ecs_%s!(world, |%s| %s);\n    println!(\"{}\", out.join(\";\"));" % (mac, render_params(params, cfgs), body))
     src.append("}")
     return "\n".join(src)
 
@@ -798,19 +814,36 @@ def cfgq_enum(tier, seed):
     jobs = []
     for it in sample:
         mac = rnd.choice(MACROS)
-        jobs += [(it, mac, "const", False), (it, mac, "flags", False), (it, mac, None, True)]
+        jobs += [(it, mac, "const", False, False), (it, mac, "flags", False, False), (it, mac, None, True, False)]
+    # the runtime-borrowing macros under exclusive guards on everything the twin does not touch:
+    # programs with a disabled component parameter whose column exists in a matched archetype
+    def hidden_col(it):
+        for dp in it["dparams"]:
+            if dp["pred"] and not it["asg"][dp["pred"] - 1] and dp["p"][0] in ("comp", "compmut"):
+                if any(dp["p"][1] in a["cols"] for a in it["decl"] if any(m["name"] == a["name"] for m in it["matched"])):
+                    return True
+        return False
+    cand_g = [it for it in cand if hidden_col(it)]
+    for it in rnd.sample(cand_g, min(6 if tier == "quick" else 40, len(cand_g))):
+        for mac in ("iter_borrow", "find_borrow"):
+            jobs += [(it, mac, "const", False, True), (it, mac, None, True, True)]
+    stats["guarded_e2e"] = sum(1 for j in jobs if j[4])
     e2e = 0
     def run_job(job):
-        it, mac, realise, twin = job
-        src = cfgq_e2e_src(it, mac, "const" if realise == "const" else None, twin)
+        it, mac, realise, twin, guarded = job
+        src = cfgq_e2e_src(it, mac, "const" if realise == "const" else None, twin, guarded)
         extra = [PRED[i + 1] for i, v in enumerate(it["asg"]) if v] if realise == "flags" else []
-        r = compile_run(src, rlib, deps, "cfgq_%s" % key_of(json.dumps(it), mac, realise, twin)[:12], extra_cfg=extra)
-        ev = {"decl": it["decl"], "dparams": it["dparams"], "asg": it["asg"], "macro": mac, "realise": realise, "twin": twin}
+        r = compile_run(src, rlib, deps, "cfgq_%s" % key_of(json.dumps(it), mac, realise, twin, guarded)[:12], extra_cfg=extra)
+        ev = {"decl": it["decl"], "dparams": it["dparams"], "asg": it["asg"], "macro": mac, "realise": realise, "twin": twin, "guarded": guarded}
         if r["rc"] != 0:
-            return [{"tags": ["C16"], "what": "program failed to compile: " + r["stderr"][-500:], "at": 0, "event": ev, "origin": {"engine": "cfgq-e2e"}}]
+            tags = ["C16", "C11"] if guarded and not twin else (["C11"] if guarded else ["C16"])
+            return [{"tags": tags, "what": "program failed to compile or run%s: %s" % (" under exclusive guards on the columns its reduced twin does not touch" if guarded else "", r["stderr"][-500:]),
+                     "at": 0, "event": ev, "origin": {"engine": "cfgq-e2e"}}]
         want = cfgq_e2e_expected(it, mac)
         if r.get("stdout", "").strip() != want:
-            return [{"tags": ["C16"] if not twin else ["C05"], "what": "ran on %r, twin/model expects %r" % (r.get("stdout", "").strip(), want), "at": 0, "event": ev, "origin": {"engine": "cfgq-e2e"}}]
+            return [{"tags": (["C16"] if not twin else ["C05"]) + (["C11"] if guarded else []),
+                     "what": "ran on %r, twin/model expects %r%s" % (r.get("stdout", "").strip()[-400:], want, " (under exclusive guards on the columns the reduced twin does not touch)" if guarded else ""),
+                     "at": 0, "event": ev, "origin": {"engine": "cfgq-e2e"}}]
         return []
     with ThreadPoolExecutor(max_workers=12) as ex:
         for res in ex.map(run_job, jobs):
